@@ -33,10 +33,23 @@ def family_of(name):
     return None
 
 
+# OpenSSL BIO method callbacks by role: the life-cycle callbacks run under BIO_new/BIO_free/SSL_free,
+# the I/O callbacks under the handshake and data calls (BIO_meth_new(3), SSL_free(3))
+BIO_LIFE_REG = {"BIO_meth_set_create", "BIO_meth_set_destroy"}
+OPENSSL_LIFE_ENTRY = {"SSL_free", "BIO_free", "BIO_free_all", "BIO_new", "SSL_set_bio", "SSL_has_pending"}
+
+
+class CallbackSet(set):
+    """set of callbacks of a family with the subset that only runs on object creation/destruction"""
+    life = frozenset()
+    io = frozenset()
+
+
 def library_callbacks(prog):
     """family -> set of Function registered as callbacks with that family"""
     fp = prog.fp()
     out = {}
+    life, io = set(), set()
     for f in prog.functions:
         for c in f.calls():
             n = f.nodes[c]
@@ -48,7 +61,9 @@ def library_callbacks(prog):
                 for a in n["args"]:
                     for l in fp._locs(f, a):
                         if l[0] == "F":
-                            out.setdefault(fam, set()).add(l[1])
+                            out.setdefault(fam, CallbackSet()).add(l[1])
+                            if fam == "openssl":
+                                (life if e in BIO_LIFE_REG else io).add(l[1])
     # stores into fields of records of a library (e.g. ares_options.sock_state_cb)
     for k, v in fp.consts.items():
         if k[0] == "f" and k[1] not in prog.records:
@@ -56,7 +71,10 @@ def library_callbacks(prog):
             if fam:
                 for d in v:
                     if not isinstance(d, tuple):
-                        out.setdefault(fam, set()).add(d)
+                        out.setdefault(fam, CallbackSet()).add(d)
+    if "openssl" in out:
+        out["openssl"].life = frozenset(life)
+        out["openssl"].io = frozenset(io - life)
     return out
 
 
@@ -154,7 +172,11 @@ def call_edges(prog, fn, live=None, callbacks=None):
                     if fam and fam in callbacks:
                         ent = CALLBACK_ENTRY.get(fam)
                         if ent is None or x in ent:
-                            defs.extend(callbacks[fam])
+                            cbs = callbacks[fam]
+                            if fam == "openssl" and x in OPENSSL_LIFE_ENTRY and getattr(cbs, "io", None):
+                                defs.extend(d for d in cbs if d not in cbs.io)
+                            else:
+                                defs.extend(cbs)
             out.append((e, defs, exts))
     return out
 
